@@ -3,16 +3,21 @@
 // Built with the `fuzz` flavour (clang++-14 -fsanitize=fuzzer,address,undefined) against that flavour's
 // libcppParser.a.  Every input is written to $VF_FUZZ_DIR/main.h and parsed by a fresh CPPParser that is set up
 // like parse_file's (-S$VF_PARSER_INC -D__cplusplus=201703L, verbose 2, so that the diagnostic paths
-// (show_line etc.) run too).  Odd-sized inputs go through preprocess_file (parse_file -E), the rest through
-// parse_file.  In-process state (the global type tables) survives between inputs, which is not how the tool
+// (show_line etc.) run too).  By input size modulo 3: 0 = parse_file, 1 = preprocess_file (parse_file -E),
+// 2 = the front-end half of a .N command file: $VF_FUZZ_DIR/carrier.h (written by the check) is parsed and every
+// line of the input goes through parse_type / resolve_type / get_local_name and parse_expr, which is what
+// interrogate's forcetype / renametype / ignoretype / defconstruct commands do with their operand.  In-process state (the global type tables) survives between inputs, which is not how the tool
 // runs: an artifact found here counts only after it reproduced on the real asan parse_file in a fresh process
 // (vf/props/c15.py does that).
 
 #include "cppParser.h"
 #include "cppManifest.h"
+#include "cppType.h"
+#include "cppExpression.h"
 #include "cppFile.h"
 #include "filename.h"
 
+#include <ctype.h>
 #include <stdint.h>
 #include <stdio.h>
 #include <stdlib.h>
@@ -49,10 +54,53 @@ extern "C" int LLVMFuzzerTestOneInput(const uint8_t *data, size_t size) {
   CPPManifest *macro = new CPPManifest(*parser, "__cplusplus", "201703L");
   parser->_manifests[macro->_name] = macro;
 
-  if (size & 1) {
+  switch (size % 3) {
+  case 1:
     parser->preprocess_file(Filename(path));
-  } else {
+    break;
+
+  case 2:
+    {
+      static const std::string carrier = path.substr(0, path.size() - 6) + "carrier.h";
+      parser->parse_file(Filename(carrier));
+      std::string text((const char *)data, size);
+      size_t p = 0;
+      while (p < text.size()) {
+        size_t q = text.find('\n', p);
+        if (q == std::string::npos) {
+          q = text.size();
+        }
+        std::string line = text.substr(p, q - p);
+        p = q + 1;
+        // read_command_file() strips comments and surrounding white space first
+        size_t hash = line.find('#');
+        if (hash != std::string::npos) {
+          line = line.substr(0, hash);
+        }
+        while (!line.empty() && isspace((unsigned char)line[line.size() - 1])) {
+          line.resize(line.size() - 1);
+        }
+        size_t b = 0;
+        while (b < line.size() && isspace((unsigned char)line[b])) {
+          ++b;
+        }
+        line = line.substr(b);
+        if (line.empty() || line.find('\0') != std::string::npos) {
+          continue;
+        }
+        CPPType *type = parser->parse_type(line);
+        if (type != nullptr) {
+          type = type->resolve_type(parser, parser);
+          type->get_local_name(parser);
+        }
+        parser->parse_expr(line);
+      }
+    }
+    break;
+
+  default:
     parser->parse_file(Filename(path));
+    break;
   }
   return 0;
 }
